@@ -67,7 +67,7 @@ class C19(Check):
                    'the string "discover"; a request truncated by the receive size is judged by what arrived']
     PROBES = ('c19.description-truncated', 'c19.responder-disabled', 'c19.non-request', 'c19.invalid-utf8',
               'c19.non-object-json', 'net.udp-lost', 'net.udp-duplicated', 'net.udp-reordered', 'net.udp-truncated',
-              'c19.near-budget', 'c19.server-mode', 'c19.server-responder-started', 'c19.requests-during-shutdown', 'c19.node-restart', 'fault.port-held-by-somebody-else',
+              'c19.near-budget', 'c19.server-mode', 'c19.server-responder-started', 'c19.requests-during-shutdown', 'c19.node-restart', 'c19.requests-during-restart', 'fault.port-held-by-somebody-else',
               'fault.bind-address-in-use')
 
     def gen_case(self, rng, tier):
@@ -178,6 +178,9 @@ class C19(Check):
         udp_tasks = [t for t in sim.tasks if t.name.endswith(':run') and 'discovery' in t.name]
         ctx['alive'] = any(t.state != 'done' for t in udp_tasks) if udp_tasks else lst.running
         ctx['enabled'] = lst.is_enabled
+        # (taken before the node is restarted or shut down: a responder whose socket is closed under it by its own
+        # shutdown() may end with EBADF, which no datagram is to blame for)
+        ctx['task_exc'] = next((repr(t.exc) for t in udp_tasks if t.exc is not None), None)
         # every announced port answers with the identification of this node
         ctx['idn'] = {}
         for q in sorted({int(i.split('://')[1]) for i in ifaces}):
@@ -200,10 +203,26 @@ class C19(Check):
             # requests must be answered again
             sim.count('c19.node-restart')
             nopen = len([e for e in getattr(net, 'listen_log', ()) if e[3] == 'open'])
+            # discovery broadcasts keep coming while the node restarts (they reach every socket bound to the port)
+            rstop = []
+
+            def restart_prober():
+                k = 0
+                while not rstop and k < 200:
+                    k += 1
+                    for s_ in list(net.udp_sockets):
+                        if not s_.closed:
+                            s_.inject(b'{"SECoP": "discover"}', ('10.0.0.66', 46000 + k))
+                    time.sleep(0.03)
+            rp = threading.Thread(target=restart_prober, name='restart-prober')
+            rp.start()
+            sim.count('c19.requests-during-restart')
             srv.restart()
             up = sim.wait_until(lambda: len([e for e in getattr(net, 'listen_log', ()) if e[3] == 'open']) >= nopen + len(ctx['node_ports'])
                                 and all(net.listeners.get(q) is not None and net.listeners[q].accept for q in ctx['node_ports']),
                                 60, what='node restart')
+            rstop.append(1)
+            rp.join()
             time.sleep(1.0)
             ctx['restart_up'] = bool(up)
             ctx['restart_seq'] = sim.next_seq()
@@ -223,7 +242,9 @@ class C19(Check):
             k = 0
             while not stop and k < 80:
                 k += 1
-                live.inject(b'{"SECoP": "discover"}', ('10.0.0.77', 47000 + k))
+                for s_ in list(net.udp_sockets):
+                    if not s_.closed:
+                        s_.inject(b'{"SECoP": "discover"}', ('10.0.0.77', 47000 + k))
                 time.sleep(0.03)
         pt = threading.Thread(target=prober, name='prober')
         pt.start()
@@ -236,7 +257,6 @@ class C19(Check):
         ctx['listen_log'] = list(getattr(net, 'listen_log', ()))
         ctx['all_sent'] = sorted((x for s_ in net.udp_sockets for x in s_.sent), key=lambda x: x[1])
         ctx['ended'] = not th.is_alive()
-        ctx['task_exc'] = next((repr(t.exc) for t in udp_tasks if t.exc is not None), None)
 
     def main_responder(self, sim, case, ctx):
         shape = case['shape']
@@ -446,7 +466,7 @@ class C19(Check):
                 except UnicodeDecodeError:
                     bump('c19.invalid-utf8')
         expected += [('10.0.0.99', 49999)] * len(ports)
-        answers = [a for _t, _q, _d, a in sock.sent if a[0] not in ('255.255.255.255', '10.0.0.77', '10.0.0.88')]   # (not the shutdown prober)
+        answers = [a for _t, _q, _d, a in sock.sent if a[0] not in ('255.255.255.255', '10.0.0.66', '10.0.0.77', '10.0.0.88')]   # (not the shutdown prober)
         if sorted(answers) != sorted(expected):
             missing = [a for a in set(expected) if expected.count(a) > answers.count(a)]
             extra = [a for a in set(answers) if answers.count(a) > expected.count(a)]
